@@ -694,6 +694,15 @@ func c16Engine(env *Env, rep *Report) {
 		must(err)
 		inB, err := StartInst(defsB, InstOpt{Opts: shared, NoStart: true})
 		must(err)
+		// ... also a snapshot of NO variables: it stays empty
+		{
+			empty := data.NewFlowDataLocator()
+			none := empty.CloneVariables()
+			empty.SetVariable("later", 1)
+			if len(none) != 0 {
+				rep.Violate("C16-aliasing", cs, fmt.Sprintf("a snapshot taken while there were no variables shows %d after one was stored", len(none)))
+			}
+		}
 		// a snapshot keeps the values it was taken with, whatever is stored afterwards (same type or not)
 		snapshot := inA.P.Locator().CloneVariables()
 		inA.P.Locator().SetVariable("x", "changed-in-a")
